@@ -97,8 +97,11 @@ def forbidden_hits():
     return hits
 
 
-def lean_build_and_audit(theorems, prop_module):
+def lean_build_and_audit(theorems, prop_modules, tier="quick"):
     """returns dict(ok, build_ok, failed: [names], axioms: {thm: [...]}, detail)"""
+    if isinstance(prop_modules, str):
+        prop_modules = [prop_modules]
+    prop_module = prop_modules[0]
     os.makedirs(os.path.join(LEAN_DIR, ".lake"), exist_ok=True)
     lock = open(os.path.join(LEAN_DIR, ".lake", "verif.lock"), "w")
     fcntl.flock(lock, fcntl.LOCK_EX)
@@ -114,7 +117,7 @@ def lean_build_and_audit(theorems, prop_module):
         res["forbidden"] = hits
         if not build_ok:
             # does the property's own module still build?  (a break elsewhere is not this property's)
-            p2 = subprocess.run(["lake", "build", prop_module], cwd=LEAN_DIR, capture_output=True, text=True)
+            p2 = subprocess.run(["lake", "build"] + list(prop_modules), cwd=LEAN_DIR, capture_output=True, text=True)
             if p2.returncode != 0:
                 res["failed"] = list(theorems)
                 res["ok"] = False
@@ -134,7 +137,8 @@ def lean_build_and_audit(theorems, prop_module):
             os.makedirs(os.path.join(LEAN_DIR, ".lake", "audit"), exist_ok=True)
             af = os.path.join(LEAN_DIR, ".lake", "audit", "Audit_%s.lean" % prop_module.split(".")[-1])
             with open(af, "w") as fh:
-                fh.write("import %s\n" % prop_module)
+                for pm in prop_modules:
+                    fh.write("import %s\n" % pm)
                 for t in theorems:
                     fh.write("#print axioms %s\n" % t)
             pa = subprocess.run(["lake", "env", "lean", af], cwd=LEAN_DIR, capture_output=True, text=True)
@@ -158,6 +162,14 @@ def lean_build_and_audit(theorems, prop_module):
             ax = res["axioms"].get(t)
             if ax is None or not set(ax) <= ALLOWED_AXIOMS:
                 res["failed"].append(t)
+        res["leanchecker"] = None
+        if tier == "thorough" and not res["failed"]:
+            # independent re-check of the compiled .olean of the property module (and what it imports)
+            pc = subprocess.run(["lake", "env", "leanchecker"] + list(prop_modules), cwd=LEAN_DIR, capture_output=True, text=True)
+            res["leanchecker"] = pc.returncode
+            if pc.returncode != 0:
+                res["failed"] = list(theorems)
+                res["detail"] += "leanchecker failed: " + (pc.stdout + pc.stderr)[-1500:]
         # a build break in a module this property does not depend on is not this property's failure
         res["ok"] = (not res["failed"]) and not hits
         if not build_ok:
@@ -200,6 +212,62 @@ def load_known():
     return json.load(open(p))
 
 
+class Multi:
+    """a property's main module plus its extension modules props/cXX_*.py (same contract; each case is
+    tagged with the module that generated it)."""
+
+    def __init__(self, prop):
+        self.main = importlib.import_module("props.%s" % prop.lower())
+        self.mods = {"main": self.main}
+        for f in sorted(glob.glob(os.path.join(HERE, "props", "%s_*.py" % prop.lower()))):
+            name = os.path.basename(f)[:-3]
+            self.mods[name] = importlib.import_module("props.%s" % name)
+
+    def of(self, case):
+        return self.mods.get(case.get("_mod", "main"), self.main) if isinstance(case, dict) else self.main
+
+    def all(self, attr, default=None):
+        out = []
+        for m in self.mods.values():
+            v = getattr(m, attr, default)
+            if v is None:
+                continue
+            if isinstance(v, str):
+                v = [v]
+            for x in v:
+                if x not in out:
+                    out.append(x)
+        return out
+
+    def generate(self, ctx):
+        cases = []
+        for name, m in self.mods.items():
+            for c in m.generate(ctx):
+                if name != "main":
+                    c["_mod"] = name
+                cases.append(c)
+        return cases
+
+    def lean_ops(self, case):
+        return self.of(case).lean_ops(case)
+
+    def evaluate(self, case, louts, ctx):
+        return self.of(case).evaluate(case, louts, ctx)
+
+    def describe(self, case):
+        m = self.of(case)
+        return m.describe(case) if hasattr(m, "describe") else case
+
+    def shrink_candidates(self, case):
+        m = self.of(case)
+        if not hasattr(m, "shrink_candidates"):
+            return
+        for c in m.shrink_candidates(case):
+            if "_mod" in case:
+                c["_mod"] = case["_mod"]
+            yield c
+
+
 def evaluate_cases(mod, ctx, cases):
     """run cases through lean + impl; returns list of (case, findings, nontrivial_key)."""
     all_ops = []
@@ -221,8 +289,6 @@ def evaluate_cases(mod, ctx, cases):
 
 
 def shrink(mod, ctx, case, locus, rounds=40):
-    if not hasattr(mod, "shrink_candidates"):
-        return case
     cur = case
     for _ in range(rounds):
         cands = list(mod.shrink_candidates(cur))
@@ -268,12 +334,12 @@ def main():
 
 def run(prop, tier, seed, replay, t0):
     common.ensure_repo_on_path()
-    mod = importlib.import_module("props.%s" % prop.lower())
+    mod = Multi(prop)
     ctx = Ctx(prop, tier, seed)
-    theorems = list(mod.THEOREMS)
-    prop_module = getattr(mod, "LEAN_MODULE", "CrCube.Props.%s" % prop)
+    theorems = mod.all("THEOREMS", [])
+    prop_module = mod.all("LEAN_MODULE", None) or ["CrCube.Props.%s" % prop]
 
-    lean = lean_build_and_audit(theorems, prop_module)
+    lean = lean_build_and_audit(theorems, prop_module, tier)
 
     # ---- cases: corpus first, then generated ------------------------------------------
     cases = []
@@ -301,7 +367,7 @@ def run(prop, tier, seed, replay, t0):
             findings_all.append((c, f))
     step = max(1, len(results) // 3)
     for c, findings, key in results[::step][:3]:
-        samples.append(mod.describe(c) if hasattr(mod, "describe") else c)
+        samples.append(mod.describe(c))
 
     known = [k for k in load_known() if k.get("property") == prop and k.get("status") == "known"]
     known_loci = {k["locus"]: k for k in known}
@@ -363,21 +429,22 @@ def run(prop, tier, seed, replay, t0):
         "coverage": {
             "obligations": len(theorems),
             "discharged": discharged,
-            "checker_cmd": "cd /verif/lean && lake build CrCube && lake env lean .lake/audit/Audit_%s.lean  (#print axioms of each obligation)" % prop,
-            "trusted_base": TRUSTED_BASE + list(getattr(mod, "TRUSTED_EXTRA", [])),
+            "checker_cmd": "cd /verif/lean && lake build CrCube && lake env lean .lake/audit/Audit_%s.lean  (#print axioms of each obligation)" % prop_module[0].split(".")[-1],
+            "trusted_base": TRUSTED_BASE + mod.all("TRUSTED_EXTRA", []),
             "theorems": theorems,
             "axioms": lean["axioms"],
             "forbidden_token_hits": lean.get("forbidden", []),
+            "leanchecker_rc": lean.get("leanchecker"),
             "evaluations": n_eval,
             "distinct_nontrivial": len(keys),
-            "rule": getattr(mod, "RULE", ""),
+            "rule": " || ".join(mod.all("RULE", [])),
             "samples": samples,
             "traces_validated_against_impl": n_eval,
             "distribution": ctx.dist,
             "known_findings_matched": sorted(known_hit),
-            "exhaustive": bool(getattr(mod, "EXHAUSTIVE", False) and ctx.dist.get("exhaustive_done")),
+            "exhaustive": bool(getattr(mod.main, "EXHAUSTIVE", False) and ctx.dist.get("exhaustive_done")),
         },
-        "assumptions": list(getattr(mod, "ASSUMPTIONS", [])),
+        "assumptions": mod.all("ASSUMPTIONS", []),
         "wall_s": round(time.time() - t0, 2),
         "violations": nviol,
     }
